@@ -31,4 +31,13 @@ EllipseAxis(ev, chs, cx, cy, a, b) ==
   ELSE GOk([i \in 1..Len(ev) |->
          LET dx == ev[i][chs[1]] - cx  dy == ev[i][chs[2]] - cy
          IN b * b * dx * dx + a * a * dy * dy <= a * a * b * b])
+
+(* ellipse in log10 space: an event coordinate is given by its decimal exponent (value 10^e), or UNDEF for a value   *)
+(* that has no logarithm (zero or negative); such an event is never inside.  Centre in exponents, rotation 0.      *)
+UNDEF == -1
+EllipseLog(ev, chs, cx, cy, a, b) ==
+  IF Len(chs) # 2 THEN GErr
+  ELSE GOk([i \in 1..Len(ev) |->
+         LET x == ev[i][chs[1]]  y == ev[i][chs[2]]
+         IN x # UNDEF /\ y # UNDEF /\ b * b * (x - cx) * (x - cx) + a * a * (y - cy) * (y - cy) <= a * a * b * b])
 =============================================================================
